@@ -288,6 +288,22 @@ func (x *Exec) callWrites0(c *ssa.CallCommon, ws *WriteSet, visiting map[*ssa.Fu
 		ws.why = "dynamic call " + c.Value.Name()
 		return
 	}
+	if fnKey(fn) == "encoding/json.Unmarshal" && len(c.Args) == 2 {
+		// writes the pointee (statically typed through the MakeInterface) and its ghost snapshots
+		if mi, ok := c.Args[1].(*ssa.MakeInterface); ok {
+			if pt, ok := mi.X.Type().Underlying().(*types.Pointer); ok {
+				for _, k := range x.keysUnder("H", pt.Elem(), nil) {
+					ws.keys[k] = true
+				}
+				nk, ek := x.logKeys("unmarshal")
+				ws.keys[nk], ws.keys[ek] = true, true
+				return
+			}
+		}
+		ws.all = true
+		ws.why = "json.Unmarshal into a statically unknown target"
+		return
+	}
 	if fnKey(fn) == "google.golang.org/protobuf/types/known/anypb.New" && len(c.Args) == 1 {
 		x.addEffectSpec([]string{"ghost.marshalfail"}, ws)
 		// the model snapshots the message struct into a fresh object of the same type
